@@ -446,7 +446,6 @@ func overlapCase(o *hxlib.Out, cf *hxlib.CommonFlags, idx int, r *hxlib.Rng, mix
 	nout := c.circ.Outputs.Size()
 	K := 2 + r.Intn(3)
 	policy := []string{"inner-first", "lifo", "fifo", "random"}[r.Intn(4)]
-	anyStall := false
 	for s := 0; s < K; s++ {
 		ss := &ovSession{id: s, failAt: -1}
 		ss.xb = randBits(r, n0)
@@ -480,9 +479,6 @@ func overlapCase(o *hxlib.Out, cf *hxlib.CommonFlags, idx int, r *hxlib.Rng, mix
 			ss.stalls = append(ss.stalls, p)
 		}
 		sort.Strings(ss.stalls)
-		if len(ss.stalls) > 0 {
-			anyStall = true
-		}
 		ss.gt = &gate{points: pts}
 		if r.Intn(6) == 0 {
 			// the entropy source runs short inside Circuit.Garble: in R, or in
@@ -494,7 +490,6 @@ func overlapCase(o *hxlib.Out, cf *hxlib.CommonFlags, idx int, r *hxlib.Rng, mix
 		}
 		c.sess = append(c.sess, ss)
 	}
-	_ = anyStall
 
 	// ---- run the schedule
 	stalled := false
